@@ -78,8 +78,9 @@ def _id(n):
 class Lower:
     """clang JSON AST -> Python source"""
 
-    def __init__(self, enums=None):
+    def __init__(self, enums=None, conc_records=()):
         self.enums = dict(enums or {})
+        self.conc_records = set(conc_records)     # records whose integer fields are made concrete (case split) on construction
         self.tmp = 0
         self.kinds = set()
 
@@ -106,36 +107,53 @@ class Lower:
     def record(self, d):
         fields = [(c["name"], c["type"]["qualType"]) for c in d.get("inner", []) if c.get("kind") == "FieldDecl"]
         out = [f"class {d['name']}(Record):", f"    _fields = {tuple(_id(f) for f, _ in fields)!r}"]
+        ctors = []
         for c in d.get("inner", []):
             k = c.get("kind")
             if k == "CXXConstructorDecl" and not c.get("isImplicit"):
                 params = [_id(p["name"]) for p in c.get("inner", []) if p.get("kind") == "ParmVarDecl"]
-                out.append(f"    def __init__(self, {', '.join(params)}):")
+                ctors.append(len(params))
+                out.append(f"    def _init_{len(params)}(self, {', '.join(params)}):" if params else "    def _init_0(self):")
                 inits = {}
                 for ci in c.get("inner", []):
                     if ci.get("kind") == "CXXCtorInitializer":
                         inits[ci["anyInit"]["name"]] = self.expr(ci["inner"][0])
                 for f, t in fields:
                     out.append(f"        self.{_id(f)} = {inits.get(f, self.default(t))}")
+                    if d["name"] in self.conc_records:
+                        out.append(f"        self.{_id(f)} = CONC(self.{_id(f)})")
                 body = [x for x in c.get("inner", []) if x.get("kind") == "CompoundStmt"]
                 if body:
                     out += ["    " + l for l in self.block(body[0], 1)]
             elif k == "CXXMethodDecl" and not c.get("isImplicit"):
-                nm = {"operator<": "__lt__"}.get(c["name"])
-                if nm is None:
+                nm = {"operator<": "__lt__"}.get(c["name"], _id(c["name"]))
+                if nm.startswith("operator"):
                     raise LowerError("method " + c["name"])
                 params = [_id(p["name"]) for p in c.get("inner", []) if p.get("kind") == "ParmVarDecl"]
-                out.append(f"    def {nm}(self, {', '.join(params)}):")
-                body = [x for x in c.get("inner", []) if x.get("kind") == "CompoundStmt"][0]
-                out += ["    " + l for l in self.block(body, 1)]
+                out.append(f"    def {nm}(self{''.join(', ' + p for p in params)}):")
+                body = [x for x in c.get("inner", []) if x.get("kind") == "CompoundStmt"]
+                if not body:
+                    raise LowerError("method without a body: " + c["name"])
+                out += ["    " + l for l in (self.block(body[0], 1) or ["    pass"])]
             elif k in ("FieldDecl", "CXXRecordDecl", "CXXConstructorDecl", "CXXDestructorDecl", "CXXMethodDecl", "FullComment", "AccessSpecDecl", "DefinitionData"):
                 continue
             else:
                 raise LowerError("record member " + str(k))
+        if ctors:
+            out.append("    def __init__(self, *a):")
+            out.append("        getattr(self, '_init_%d' % len(a))(*a)")
         return "\n".join(out)
 
-    def default(self, t):
+    @staticmethod
+    def norm_t(t):
         t = t.replace("const ", "").strip()
+        for c in ("vector", "deque", "map", "pair"):
+            if t.startswith(c + "<"):
+                t = "std::" + t
+        return t
+
+    def default(self, t):
+        t = self.norm_t(t)
         if t.startswith("std::vector"):
             return "Vec()"
         if t.startswith("std::deque"):
@@ -144,7 +162,31 @@ class Lower:
             return "Map()"
         if t in ("int", "float", "double", "bool", "char") or t.endswith("_t"):
             return "UNINIT"
+        if "(&)" in t or t.endswith("&"):
+            return "UNINIT"
+        import re
+        m = re.match(r"^(.*?)\s*\[(\d+)\](.*)$", t)
+        if m:
+            inner = (m.group(1) + m.group(3)).strip()
+            return f"[{self.default(inner)} for _ in range({m.group(2)})]"
+        if t == "fvec4":
+            return "CALL('fvec4', 0, 0, 0, 0)"
         raise LowerError("default construction of " + t)
+
+    def elem_default(self, t):
+        """default element of std::vector<T> (for resize / sized construction)"""
+        t = t.replace("const ", "").strip().rstrip("&").strip()
+        t = t.replace("class ", "").replace("struct ", "")
+        if t.startswith("std::vector<") or t.startswith("vector<"):
+            inner = t[t.index("<") + 1:t.rindex(">")].strip()
+            if "," in inner and not inner.startswith(("std::vector", "vector", "std::pair", "pair")):
+                inner = inner.split(",")[0].strip()
+            if inner.startswith(("std::vector", "vector")):
+                return "Vec()"
+            if inner.startswith(("std::pair", "pair")):
+                return "None"
+            return "0"
+        return "0"
 
     # ---- statements
     def block(self, n, ind):
@@ -187,6 +229,23 @@ class Lower:
                 out += [P + f"    if not ({self.expr(cond)}):", P + "        break"]
             out += self.block(body, ind + 1)
             return out
+        if k == "WhileStmt":
+            cond, body = n["inner"][-2], n["inner"][-1]
+            return [P + f"while {self.expr(cond)}:"] + (self.block(body, ind + 1) or [P + "    pass"])
+        if k and k.startswith("OMP") and k.endswith("Directive"):
+            def find(x):
+                if isinstance(x, dict):
+                    if x.get("kind") == "ForStmt":
+                        return x
+                    for c in x.get("inner", []):
+                        r = find(c)
+                        if r:
+                            return r
+                return None
+            f = find(n)
+            if not f:
+                raise LowerError("OpenMP directive without a loop")
+            return [P + "# (OpenMP directive: iterations executed in order)"] + self.stmt(f, ind)
         if k == "ReturnStmt":
             return [P + "return" + (" " + self.expr(n["inner"][0]) if n.get("inner") else "")]
         if k == "BreakStmt":
@@ -222,6 +281,9 @@ class Lower:
             return self.stmt(n["inner"][0], ind)
         # expression statements
         if k == "BinaryOperator" and n.get("opcode") == "=":
+            rhs = self.strip(n["inner"][1])
+            if rhs.get("kind") == "BinaryOperator" and rhs.get("opcode") == "=":          # a = b = c
+                return self.stmt(rhs, ind) + [P + self.assign(n["inner"][0], self.expr(rhs["inner"][0]))]
             return [P + self.assign(n["inner"][0], self.expr(n["inner"][1]))]
         if k == "CompoundAssignOperator":
             op = n["opcode"][:-1]
@@ -231,6 +293,9 @@ class Lower:
         if k == "CXXOperatorCallExpr" and self.opname(n) in ("operator++", "operator--"):
             a = n["inner"][1]
             return [P + self.assign(a, f"({self.expr(a)} {self.opname(n)[-1]} 1)")]
+        if k == "CXXOperatorCallExpr" and self.opname(n) in ("operator-=", "operator+=", "operator*="):
+            a = n["inner"][1]
+            return [P + self.assign(a, f"({self.expr(a)} {self.opname(n)[8]} {self.expr(n['inner'][2])})")]
         if k == "CXXOperatorCallExpr" and self.opname(n) == "operator=":
             return [P + self.assign(n["inner"][1], f"COPY({self.expr(n['inner'][2])})")]
         if k in ("CXXMemberCallExpr", "CallExpr"):
@@ -276,7 +341,7 @@ class Lower:
             if ck in ("FloatingToIntegral",):
                 return f"F2I({e})"
             if ck in ("LValueToRValue", "NoOp", "IntegralCast", "FunctionToPointerDecay", "ArrayToPointerDecay", "IntegralToBoolean", "IntegralToFloating", "FloatingCast", "ConstructorConversion",
-                      "UncheckedDerivedToBase", "DerivedToBase", "BuiltinFnToFnPtr", "FloatingToBoolean", "PointerToBoolean"):
+                      "UncheckedDerivedToBase", "DerivedToBase", "BuiltinFnToFnPtr", "FloatingToBoolean", "PointerToBoolean", "NullToPointer"):
                 return e
             raise LowerError("cast " + str(ck))
         if k == "IntegerLiteral":
@@ -296,6 +361,8 @@ class Lower:
             return _id(rd["name"])
         if k == "CXXThisExpr":
             return "self"
+        if k in ("GNUNullExpr", "CXXNullPtrLiteralExpr"):
+            return "None"
         if k == "MemberExpr":
             return f"{self.expr(n['inner'][0])}.{_id(n['name'])}"
         if k == "ArraySubscriptExpr":
@@ -349,28 +416,35 @@ class Lower:
             if m.get("kind") != "MemberExpr":
                 raise LowerError("member call through " + str(m.get("kind")))
             args = [self.expr(a) for a in n["inner"][1:] if a.get("kind") != "CXXDefaultArgExpr"]
+            if m["name"] == "resize" and len(args) == 1:
+                ty = m["inner"][0].get("type", {})
+                args.append("lambda: " + self.elem_default(ty.get("desugaredQualType", ty.get("qualType", ""))))
             return f"{self.expr(m['inner'][0])}.{_id(m['name'])}({', '.join(args)})"
         if k == "CXXOperatorCallExpr":
             op = self.opname(n)
             args = [self.expr(a) for a in n["inner"][1:]]
             if op == "operator[]":
                 return f"IDX({args[0]}, {args[1]})"
-            if op == "operator->" or op == "operator*":
+            if op == "operator->" or (op == "operator*" and len(args) == 1):
                 return f"DEREF({args[0]})"
             if op in ("operator!=", "operator==", "operator<", "operator>", "operator<=", "operator>=", "operator+", "operator-", "operator*", "operator/"):
                 return f"({args[0]} {op[8:]} {args[1]})"
             raise LowerError("overloaded " + op + " in an expression")
         if k in ("CXXConstructExpr", "CXXTemporaryObjectExpr"):
             args = [a for a in n.get("inner", []) if a.get("kind") != "CXXDefaultArgExpr"]
-            tt = t.replace("const ", "").strip()
+            tt = self.norm_t(t)
             ea = [self.expr(a) for a in args]
-            if len(args) == 1 and (args[0].get("type", {}).get("qualType", "").replace("const ", "").strip() == tt or "iterator" in tt):
+            if len(args) == 1 and (self.norm_t(args[0].get("type", {}).get("qualType", "")) == tt or "iterator" in tt):
                 return f"COPY({ea[0]})"
+            if not ea and "[" in tt:
+                return self.default(tt)
             if tt.startswith("std::vector"):
                 if not ea:
                     return "Vec()"
                 if len(ea) == 2:
                     return f"Vec.filled({ea[0]}, {ea[1]})"
+                if len(ea) == 1:
+                    return f"Vec.sized({ea[0]}, lambda: {self.elem_default(tt)})"
                 raise LowerError("vector constructor with " + str(len(ea)) + " arguments")
             if tt.startswith("std::deque") and not ea:
                 return "Deque()"
@@ -405,6 +479,7 @@ class Ctx:
         self.base_solver.set("timeout", 2000)
         self.base_solver.add(*self.base)
         self.forced = {}
+        self.values = {}
         self.defs = set()
         self.runs = 0
         self.path = []
@@ -473,6 +548,52 @@ class Ctx:
                 self.solver.push()
                 self.solver.add(lv[0])
             self.solver.add(*lv[2])
+
+    def choose(self, e):
+        """make a symbolic integer concrete: case split over its feasible values (each value one branch)"""
+        while True:
+            pos = self.pos
+            if pos < len(self.levels):                       # replay of the shared prefix
+                lv = self.levels[pos]
+                self.pos += 1
+                self.path.append(lv[0])
+                if self.trail[pos]:
+                    return self.values[pos]
+                continue
+            if pos < len(self.trail):                        # the flipped decision: "not the value taken before"
+                v = self.values[pos]
+                c = e != v
+                self.solver.push()
+                self.solver.add(c)
+                self.levels.append([c, True, []])
+                self.path.append(c)
+                self.pos += 1
+                continue
+            t = time.time()
+            r = self.solver.check()
+            self.solver_s += time.time() - t
+            self.queries += 1
+            if r == z3.unsat:
+                raise Infeasible()
+            if r != z3.sat:
+                raise Unsupported("concretisation: solver unknown")
+            v = self.solver.model().eval(e, model_completion=True).as_long()
+            self.values[pos] = v
+            other = self.check(e != v)
+            if other == z3.unknown:
+                raise Unsupported("concretisation: solver unknown")
+            forked = other == z3.sat
+            if forked:
+                self.new_alts.append(self.trail[:pos] + [False])
+            self.trail = self.trail[:pos] + [True]
+            c = e == v
+            if forked:
+                self.solver.push()
+                self.solver.add(c)
+            self.levels.append([c, forked, []])
+            self.path.append(c)
+            self.pos += 1
+            return v
 
     def decide(self, e):
         if self.pos < len(self.levels):
@@ -652,6 +773,17 @@ def _ib(x):
     return tz(x)
 
 
+def _lit(x):
+    """a term that simplifies to a numeral is a number (x * 0, k - k ...)"""
+    e = z3.simplify(x.e)
+    if z3.is_int_value(e):
+        return e.as_long()
+    if z3.is_rational_value(e):
+        return Fraction(e.numerator_as_long(), e.denominator_as_long())
+    x.e = e
+    return x
+
+
 class SInt:
     __slots__ = ("e",)
 
@@ -662,7 +794,7 @@ class SInt:
         if isinstance(o, (SReal, float, Fraction)):
             return SReal(z3.ToReal(self.e))._b(o, f, r)
         b = _ib(o)
-        return SInt(f(b, self.e) if r else f(self.e, b))
+        return _lit(SInt(f(b, self.e) if r else f(self.e, b)))
 
     def __add__(self, o): return self._b(o, lambda a, b: a + b)
     def __radd__(self, o): return self._b(o, lambda a, b: a + b, True)
@@ -698,7 +830,7 @@ class SReal:
 
     def _b(self, o, f, r=False):
         b = o.e if isinstance(o, SReal) else z3.ToReal(o.e) if isinstance(o, SInt) else tz(Fraction(o))
-        return SReal(f(b, self.e) if r else f(self.e, b))
+        return _lit(SReal(f(b, self.e) if r else f(self.e, b)))
 
     def __add__(self, o): return self._b(o, lambda a, b: a + b)
     def __radd__(self, o): return self._b(o, lambda a, b: a + b, True)
@@ -746,18 +878,29 @@ class ACos:
 # ---------------------------------------------------------------------------------------------------------------- containers
 
 class _Uninit:
+    """an indeterminate value (uninitialised variable): arithmetic on it stays indeterminate; a branch on it is recorded (the compiled code reads
+    garbage there) and taken as false"""
+    branched = 0
+
     def __repr__(self):
         return "UNINIT"
 
     def __bool__(self):
-        raise Unsupported("read of an uninitialised variable")
+        _Uninit.branched += 1
+        return False
+
+    def _p(self, *a):
+        return self
+    __add__ = __radd__ = __sub__ = __rsub__ = __mul__ = __rmul__ = __neg__ = __truediv__ = __rtruediv__ = _p
+    __lt__ = __le__ = __gt__ = __ge__ = __eq__ = __ne__ = _p
+    __hash__ = None
 
 
 UNINIT = _Uninit()
 
 
 def COPY(x):
-    if isinstance(x, (Vec, Deque, Map, Record)):
+    if isinstance(x, (Vec, Deque, Map, Record, Pair)):
         return x.copy()
     return x
 
@@ -809,6 +952,23 @@ class Vec:
     @classmethod
     def filled(cls, n, v):
         return cls([COPY(v) for _ in range(n)])
+
+    @classmethod
+    def sized(cls, n, factory):
+        return cls([factory() for _ in range(n)])
+
+    def resize(self, n, factory=lambda: 0):
+        n = CONC(n)
+        if n < len(self.a):
+            del self.a[n:]
+        else:
+            self.a.extend(factory() for _ in range(n - len(self.a)))
+
+    def assign(self, first, last):
+        if isinstance(first, Ptr):
+            self.a = [COPY(x) for x in first.a[first.off:last.off]]
+        else:
+            self.a = [COPY(x) for x in first.c.a[first.pos:last.pos]]
 
     def copy(self): return type(self)([COPY(x) for x in self.a])
     def size(self): return len(self.a)
@@ -882,6 +1042,8 @@ class Ptr:
 
 
 def _cidx(i):
+    if isinstance(i, SInt):
+        return CONC(i)
     if is_sym(i):
         raise Unsupported("symbolic index")
     return int(i)
@@ -895,6 +1057,8 @@ def IDX(c, i):
             c.d[i] = Vec()
         return c.d[i]
     i = _cidx(i)
+    if isinstance(c, F4):
+        return c.v[i]
     a, off = (c.a, c.off) if isinstance(c, Ptr) else (c.a, 0) if isinstance(c, Vec) else (c, 0)
     if not 0 <= off + i < len(a):
         raise OutOfBounds(f"read at index {off + i} of an array of {len(a)}")
@@ -940,6 +1104,8 @@ def IMOD(a, b):
 
 
 def FDIV(a, b):
+    if a is UNINIT or b is UNINIT:
+        return UNINIT
     if isinstance(a, (SReal, SInt)) or isinstance(b, (SReal, SInt)):
         q = SReal(CTX.fresh("quot", "real"))
         be = b if isinstance(b, (SReal, SInt)) else Fraction(b)
@@ -955,8 +1121,10 @@ def FLT(s):
 
 
 def F2I(x):
+    if isinstance(x, SInt):
+        return x
     if is_sym(x):
-        raise Unsupported("symbolic float to int")
+        raise Unsupported("symbolic float to int (only integer-valued results of floor / round are converted)")
     return int(x)
 
 
@@ -973,6 +1141,12 @@ class F4(Record):
     def __sub__(self, o): return F4(*[x - y for x, y in zip(self.v, o.v)])
     def __add__(self, o): return F4(*[x + y for x, y in zip(self.v, o.v)])
 
+    def __mul__(self, o):
+        if isinstance(o, F4):
+            return F4(*[x * y for x, y in zip(self.v, o.v)])
+        return F4(*[x * o for x in self.v])
+    __rmul__ = __mul__
+
 
 def _dot3(a, b):
     return a.v[0] * b.v[0] + a.v[1] * b.v[1] + a.v[2] * b.v[2]
@@ -988,12 +1162,145 @@ def _sqrtf(x):
     return Fraction(math.sqrt(float(x)))
 
 
+def CONC(x):
+    if isinstance(x, SInt):
+        if z3.is_int_value(x.e):
+            return x.e.as_long()
+        return CTX.choose(x.e)
+    return x
+
+
+def _ite(c, a, b, real):
+    return (SReal if real else SInt)(z3.If(c, a, b))
+
+
+def _num_e(x):
+    """(z3 term, is_real) of a number"""
+    if isinstance(x, SReal):
+        return x.e, True
+    if isinstance(x, SInt):
+        return x.e, False
+    if isinstance(x, bool):
+        return z3.IntVal(int(x)), False
+    if isinstance(x, int):
+        return z3.IntVal(x), False
+    return tz(Fraction(x)), True
+
+
+def _sel(a, b, take_a_if_less):
+    """min / max without forking"""
+    if isinstance(a, F4) or isinstance(b, F4):
+        return F4(*[_sel(x, y, take_a_if_less) for x, y in zip(a.v, b.v)])
+    if not is_sym(a) and not is_sym(b):
+        return (a if a < b else b) if take_a_if_less else (a if a > b else b)
+    (ea, ra), (eb, rb) = _num_e(a), _num_e(b)
+    real = ra or rb
+    if real:
+        ea = z3.ToReal(ea) if not ra else ea
+        eb = z3.ToReal(eb) if not rb else eb
+    return _ite(ea < eb if take_a_if_less else ea > eb, ea, eb, real)
+
+
+def _abs(x):
+    if isinstance(x, F4):
+        return F4(*[_abs(v) for v in x.v])
+    if is_sym(x):
+        e, real = _num_e(x)
+        return _ite(e >= 0, e, -e, real)
+    return abs(x)
+
+
+def _floor(x):
+    if isinstance(x, SInt):
+        return x
+    if isinstance(x, SReal):
+        k = CTX.fresh("floor")
+        CTX.assume(z3.ToReal(k) <= x.e)
+        CTX.assume(x.e < z3.ToReal(k) + 1)
+        return SInt(k)
+    import math
+    return math.floor(Fraction(x))
+
+
+def _ceil(x):
+    r = _floor(-x)
+    return -r
+
+
+def _round(x):
+    if isinstance(x, F4):
+        return F4(*[_round(v) for v in x.v])
+    if isinstance(x, SInt):
+        return x
+    if isinstance(x, SReal):
+        k = CTX.fresh("round")
+        CTX.assume(x.e - z3.ToReal(k) <= tz(Fraction(1, 2)))
+        CTX.assume(z3.ToReal(k) - x.e <= tz(Fraction(1, 2)))
+        return SInt(k)
+    import math
+    f = Fraction(x)
+    return math.floor(f + Fraction(1, 2)) if f >= 0 else -math.floor(-f + Fraction(1, 2))
+
+
+class Pair:
+    __slots__ = ("first", "second")
+
+    def __init__(self, first, second):
+        self.first, self.second = first, second
+
+    def copy(self):
+        return Pair(self.first, self.second)
+
+    def __lt__(self, o):
+        return bool(self.first < o.first) or (not bool(o.first < self.first) and bool(self.second < o.second))
+
+
+class Quad:
+    """sum of squares (dot3 of a vector with itself) compared with a constant: when one lane is symbolic and LINEAR the comparison is a bound
+    on that lane's absolute value — no nonlinear term reaches the solver"""
+
+    def __init__(self, lanes):
+        self.lanes = lanes
+
+    def _split(self):
+        sym = [x for x in self.lanes if is_sym(x)]
+        c0 = sum((Fraction(x) * Fraction(x) for x in self.lanes if not is_sym(x)), Fraction(0))
+        return sym, c0
+
+    def _cmp(self, c, gt):
+        import math
+        sym, c0 = self._split()
+        c = Fraction(c)
+        if not sym:
+            return (c0 > c) if gt else (c0 < c)
+        if len(sym) != 1:
+            e = sum((x * x for x in sym[1:]), sym[0] * sym[0]) + c0
+            return (e > c) if gt else (e < c)
+        rest = c - c0
+        if rest < 0:
+            return gt
+        r = Fraction(math.sqrt(float(rest)))
+        a = _abs(sym[0])
+        return (a > r) if gt else (a < r)
+
+    def __gt__(self, c): return self._cmp(c, True)
+    def __lt__(self, c): return self._cmp(c, False)
+    __ge__ = __gt__
+    __le__ = __lt__
+
+
+def _dot3q(a, b):
+    if a is b or all((x is y) or (not is_sym(x) and not is_sym(y) and x == y) for x, y in zip(a.v[:3], b.v[:3])):
+        return Quad(list(a.v[:3]))
+    return _dot3(a, b)
+
+
 class Program:
     """the lowered declarations of one source file, executable"""
 
-    def __init__(self, src, functions, records=(), enums=(), includes=()):
+    def __init__(self, src, functions, records=(), enums=(), includes=(), conc_records=(), merge_minmax=False):
         decls = load_decls(src, list(functions) + list(records) + list(enums), includes)
-        self.lower = Lower()
+        self.lower = Lower(conc_records=conc_records)
         for e in enums:
             self.lower.enum(decls[e])
         self.enums = dict(self.lower.enums)
@@ -1004,10 +1311,13 @@ class Program:
         self.summary_base = None  # constraints under which summaries are computed (None: the caller's base); weaker than every caller's base
         self.memo = {}            # summaries: valid while the argument OBJECTS (arrays) live and the base constraints are the same
         self.env = {"Vec": Vec, "Deque": Deque, "Map": Map, "Record": Record, "COPY": COPY, "IDX": IDX, "SET": SET, "ADDR": ADDR, "DEREF": DEREF, "NOT": NOT, "IDIV": IDIV, "IMOD": IMOD,
-                    "FDIV": FDIV, "FLT": FLT, "F2I": F2I, "UNINIT": UNINIT, "CALL": self.call}
+                    "FDIV": FDIV, "FLT": FLT, "F2I": F2I, "UNINIT": UNINIT, "CALL": self.call, "CONC": CONC}
         exec(compile(self.source, "<lowered " + str(src) + ">", "exec"), self.env)
         self.builtins = {"fvec4": F4, "dot3": _dot3, "sqrtf": _sqrtf, "sqrt": _sqrtf, "acosf": ACos, "acos": ACos, "min": lambda a, b: b if b < a else a, "max": lambda a, b: b if a < b else a,
                          "sort": self._sort}
+        if merge_minmax:
+            self.builtins.update({"min": lambda a, b: _sel(a, b, True), "max": lambda a, b: _sel(a, b, False), "abs": _abs, "fabs": _abs, "floorf": _floor, "floor": _floor, "ceil": _ceil, "ceilf": _ceil,
+                                  "roundf": _round, "round": _round, "make_pair": Pair, "dot3": _dot3q})
         self.n_nodes = len(self.lower.kinds)
 
     def _sort(self, first, last):
